@@ -133,6 +133,54 @@ def rows_identical(rows):
     return all(r == rows[0] for r in rows)
 
 
+def with_decoys_points(r, rows):
+    """the N selected samples placed at shuffled positions of a larger id space, decoy samples in between:
+    returns (all_rows, sel) with all_rows[sel[a]] = rows[a].  The library is handed the id range `sel`
+    (non-identity, non-contiguous, unordered); callbacks are defined on ids; the model sees `rows` in range order."""
+    N = len(rows)
+    total = N + r.range(1, max(2, N // 2))
+    sel = r.shuffle(list(range(total)))[:N]
+    allr = [None] * total
+    for a, pos in enumerate(sel):
+        allr[pos] = rows[a]
+    for i in range(total):
+        if allr[i] is None:       # a decoy in the units of the data: sum of two samples plus one coordinate of a third
+            a, b, c = rows[r.below(N)], rows[r.below(N)], rows[r.below(N)]
+            allr[i] = [x + y - z for x, y, z in zip(a, b, reversed(c))]
+    return allr, sel
+
+
+def with_decoys_matrix(r, M):
+    """the same for a precomputed symmetric callback matrix: all_M[sel[a]][sel[b]] = M[a][b], decoy entries are drawn from
+    the entries of M (same units), symmetric"""
+    N = len(M)
+    total = N + r.range(1, max(2, N // 2))
+    sel = r.shuffle(list(range(total)))[:N]
+    pos = {p: a for a, p in enumerate(sel)}
+    A = [[None] * total for _ in range(total)]
+    for i in range(total):
+        for j in range(i, total):
+            if i in pos and j in pos:
+                v = M[pos[i]][pos[j]]
+            else:
+                v = M[r.below(N)][r.below(N)] + M[r.below(N)][r.below(N)]
+            A[i][j] = A[j][i] = v
+    return A, sel
+
+
+def decoy_fields(c):
+    """extra fields of a case line when the library is handed a non-identity id range"""
+    if not c.get("sel"):
+        return ""
+    return " sel=%s alldata=%s" % (",".join(map(str, c["sel"])), mat_text(c["all"]))
+
+
+def parse_decoys(f, c):
+    if "sel" in f and "alldata" in f:
+        c["sel"] = [int(x) for x in f["sel"].split(",")]
+        c["all"] = [[Fraction(v) for v in r.split(",")] for r in f["alldata"].split(";")]
+
+
 def nan_columns(mat_text_value):
     """(set of columns containing a non-finite token, text with those tokens replaced by 0)"""
     cols = set()
